@@ -47,6 +47,9 @@ def lf (ws : List String) : String :=
   | ["cow", h] =>
       let s := charsOfHex h
       s!"{hexOfChars (unquote s)} {hexOfChars (toCow s)} {boolStr (isQuoted s)}"
+  | ["cowk", k, h] =>
+      let u := (Uq.new (charsOfHex h)).advance (nat! k)
+      s!"{hexOfChars u.rest} {hexOfChars u.toCow} {boolStr u.isQuoted}"
   | ["write", nl, d] => showW (writeDoc (fun _ => false) (nl == "1") (parseDoc d))
   | ["writef", nl, k, mode, d] =>
       let kk := nat! k
